@@ -188,7 +188,7 @@ def register() -> None:
     mod = sys.modules[__name__]
     for name in dir(mod):
         obj = getattr(mod, name)
-        if isinstance(obj, type) and obj.__module__ == __name__ and name.startswith("V") and name not in ("VAbort", "VWeirdFloat", "VBadEq"):
+        if isinstance(obj, type) and obj.__module__ == __name__ and name.startswith("V") and name not in ("VAbort", "VWeirdFloat", "VBadEq", "VHandle", "VLab"):
             ProcessorRegistry.register_processor(name, obj)
 
 
@@ -385,6 +385,53 @@ class VNestedOperation(DataOperation):
 
     def _process_logic(self, data, factor: float = 1.0):
         return VLab.Reading(data.data * factor)
+
+
+class VHandle:
+    """What a probe may hand back: an object with __slots__ (no __dict__), no serialisation hook, and a __repr__ that raises
+    once the handle is closed."""
+    __slots__ = ("name", "closed")
+
+    def __init__(self, name):
+        self.name, self.closed = name, True
+
+    def __repr__(self):
+        if self.closed:
+            raise RuntimeError("I/O operation on closed handle")
+        return f"VHandle({self.name!r})"
+
+
+class VHandleProbe(FloatProbe):
+    """Probe whose result is a VHandle (stored under the node's context key)."""
+
+    def _process_logic(self, data):
+        return VHandle(f"spool-{data.data}")
+
+
+class _VScratchSource(DataSource):
+    """A component whose class NAME starts with an underscore (a module-private helper used as a processor)."""
+
+    @classmethod
+    def _get_data(cls, a: float = 2.0):
+        return FloatDataType(float(a))
+
+    @classmethod
+    def output_data_type(cls):
+        return FloatDataType
+
+
+class _VScratchOperation(FloatOperation):
+    """Underscore-named operation."""
+
+    def _process_logic(self, data, factor: float = 1.0):
+        return FloatDataType(data.data * factor)
+
+
+class _VScratchProbe(FloatProbe):
+    """Underscore-named probe."""
+
+    def _process_logic(self, data):
+        return data.data
 
 
 class VCtxScaleWrite(FloatOperation):
